@@ -15,7 +15,7 @@ ANCHORS = ['phylib.stats.ccg:correlograms', 'phylib.stats.ccg:_increment',
 RULE = ('quick/thorough: EVERY non-decreasing spike-sample train of length <= L on the grid 0..G x '
         'labelings over k clusters (all 2-cluster labelings; 3 clusters for length <= L-1; 4 for '
         'length <= L-2) x (bin, half-window) in {(1,0),(1,1),(2,1),(1,3),(3,2)}, sample rate and '
-        'cluster-id list order (a permutation of gappy ids plus one id without spikes) rotating '
+        'cluster-id list order (a permutation of gappy ids - small ones or, every fifth case, sparse ids up to 100000 - plus one id without spikes) rotating '
         'deterministically; plus seeded random long trains checked by a windowed pair count. '
         'Each case checks one-sided counts, the symmetrised array (4 relations), cluster_ids=None, '
         'and firing_rate. non-trivial = distinct (train, labels, params, id order) that has equal '
@@ -35,6 +35,7 @@ ASSUMPTIONS = ['sample rates are powers of two and bin sizes integer sample coun
 PARAMS = [(1, 0), (1, 1), (2, 1), (1, 3), (3, 2)]
 RATES = [1.0, 2.0, 4.0]
 IDS = [3, 0, 7, 5]       # label j -> cluster id (gappy, unsorted)
+IDS_BIG = [300, 7, 100000, 41]   # sparse, large ids (lookup much larger than the data)
 UNUSED = 9
 NSHARDS = 16
 
@@ -70,7 +71,7 @@ def run_shard(desc, ctx):
             perm = perms[k][idx // desc['n'] % len(perms[k])]
             case = {'samples': list(train), 'labels': list(labels), 'k': k, 'bin': b, 'half': h,
                     'rate': RATES[(idx // 7) % 3], 'perm': list(perm),
-                    'unused_pos': (idx // 3) % (k + 1), 'windowed': False}
+                    'unused_pos': (idx // 3) % (k + 1), 'windowed': False, 'bigids': idx % 5 == 0}
             run_case(case, ctx)
     # random long trains
     rng = np.random.default_rng([desc['seed'], desc['shard'], 15])
@@ -83,7 +84,7 @@ def run_shard(desc, ctx):
         b, h = [(1, 3), (2, 4), (3, 2), (5, 1), (1, 10), (4, 0)][int(rng.integers(0, 6))]
         case = {'samples': samples, 'labels': labels, 'k': k, 'bin': b, 'half': h,
                 'rate': RATES[int(rng.integers(0, 3))], 'perm': rng.permutation(k).tolist(),
-                'unused_pos': int(rng.integers(0, k + 1)), 'windowed': True}
+                'unused_pos': int(rng.integers(0, k + 1)), 'windowed': True, 'bigids': bool(rng.integers(0, 2))}
         run_case(case, ctx)
 
 
@@ -95,12 +96,13 @@ def run_case(case, ctx):
     perm = case['perm']
     # cluster-id list in the caller's order: position p holds the id of label perm[p]; one id
     # without any spike is inserted at unused_pos
-    id_list = [IDS[j] for j in perm]
+    ids = IDS_BIG if case.get('bigids') else IDS
+    id_list = [ids[j] for j in perm]
     id_list.insert(case['unused_pos'], UNUSED)
-    pos_of_label = {j: id_list.index(IDS[j]) for j in range(k)}
+    pos_of_label = {j: id_list.index(ids[j]) for j in range(k)}
     lab_pos = np.array([pos_of_label[int(l)] for l in labels], dtype=np.int64)
     nC = len(id_list)
-    spike_clusters = np.array([IDS[int(l)] for l in labels], dtype=np.int64)
+    spike_clusters = np.array([ids[int(l)] for l in labels], dtype=np.int64)
     times = samples / rate
     bin_size = b / rate
     window = 2 * h * bin_size if h else bin_size * 0.5
